@@ -142,7 +142,9 @@ func leastDictCode(n int64) int {
 // readXZ decodes data with the library reader under a configuration.
 func readXZ(data []byte, dictCap int, single bool, bufSize int) (out []byte, err error, panicked any) {
 	var r *xz.Reader
-	if p := safely(func() { r, err = xz.ReaderConfig{DictCap: dictCap, SingleStream: single}.NewReader(bytes.NewReader(data)) }); p != nil {
+	if p := safely(func() {
+		r, err = xz.ReaderConfig{DictCap: dictCap, SingleStream: single}.NewReader(bytes.NewReader(data))
+	}); p != nil {
 		return nil, nil, p
 	}
 	if err != nil {
